@@ -890,6 +890,11 @@ func (*Context).evaluate
   ghost at loop 3 end: if code.T == typeJeDup { ghostAssert(e.top == gtop - 1 || e.top == gtop) }
   ghost at loop 3 end: if code.T == typeBlockPop { ghostAssert(e.top == gblk + 1) }
   ghost at loop 3 end: if code.T == typeFStringBlockPop { ghostAssert(e.top == gfblk + 1) }
+  ghost var glastT VMValueType = 0
+  ghost var glastV any = nil
+  ghost at loop 3 begin: if e.top > 0 { glastT = stack[e.top-1].TypeId; glastV = stack[e.top-1].Value }
+  ghost at loop 3 end: if code.T == typeFStringBlockPop && ctx.Error == nil { ghostAssert(gtop == gfblk ==> stack[e.top-1].TypeId == VMTypeString && stack[e.top-1].Value.(string) == ""); ghostAssert(gtop > gfblk ==> stack[e.top-1].TypeId == glastT && stack[e.top-1].Value == glastV) }
+  ghost at loop 3 end: if code.T == typeBlockPop && ctx.Error == nil { ghostAssert(fstrBlockIndex > 0 ==> stack[e.top-1].TypeId == VMTypeString && stack[e.top-1].Value.(string) == ""); ghostAssert(fstrBlockIndex == 0 ==> stack[e.top-1].TypeId == VMTypeNull) }
   ghost at loop 3 end: if code.T == typeStSetName || code.T == typeStModify || code.T == typeStX0 || code.T == typeStX1 { ghostAssert(gcb ==> stCalls == 1); ghostAssert(!gcb ==> stCalls == 0) } else { ghostAssert(stCalls == 0) }
   ghost at loop 3 end: if code.T == typeCustomDice { ghostAssert(cdCalls == 1) } else { ghostAssert(cdCalls == 0) }
   closure numOpCountAdd
